@@ -259,7 +259,19 @@ fn api_level(run: &Run, subjects: &[u32], hay_cps: &[u32], kinds: &[&str], flag_
                         node
                     };
                     let pat = pat_for(&node);
-                    let Some(re) = compile_or_report(&pat, fl, &mut st, run, c) else { continue };
+                    let Some(re_with) = compile_or_report(&pat, fl, &mut st, run, c) else { continue };
+                    // the same program without its start predicate: what the matcher itself accepts (a prefilter
+                    // computed from the right set can hide a wrong member of the emitted set, and vice versa)
+                    let re_without = if hay_cps.len() <= 20_000 {
+                        match subject::compile_without_prefilter(&pat, fl, false) {
+                            CompileOutcome::Ok(r) => Some(r),
+                            _ => None,
+                        }
+                    } else {
+                        None
+                    };
+                    for (re, pf) in [(Some(&re_with), "with its start predicate"), (re_without.as_ref(), "without start predicate")] {
+                    let Some(re) = re else { continue };
                     st.add("evaluations", 1);
                     if cls.len() > 1 {
                         st.add("nontrivial", 1);
@@ -291,7 +303,7 @@ fn api_level(run: &Run, subjects: &[u32], hay_cps: &[u32], kinds: &[&str], flag_
                                 st.violation(
                                     &run.known,
                                     "C10",
-                                    &format!("{} under {} matches a different set {} [{}]", kind, if fs.is_empty() { "-" } else { fs }, block(c), label),
+                                    &format!("{} under {} matches a different set {} [{}, {}]", kind, if fs.is_empty() { "-" } else { fs }, block(c), label, pf),
                                     4,
                                     case(fs, c, &format!("/{}/{} matches a different set of code points than the oracle class{}", print::show(&pat), fs, if *kind == "negclass" { " (complements shown)" } else { "" }), hexs(&e), hexs(&gg)).set("pattern", J::s(&print::show(&pat))).set("flags", J::s(fs)),
                                 );
@@ -301,6 +313,7 @@ fn api_level(run: &Run, subjects: &[u32], hay_cps: &[u32], kinds: &[&str], flag_
                         }
                         Outcome::Panic(m) => st.violation(&run.known, "C10", "panic", 1, case(fs, c, "panic while matching", J::Null, J::s(&m))),
                         Outcome::Fuel => {}
+                    }
                     }
                 }
             }
@@ -316,6 +329,8 @@ fn api_text_side(run: &Run, subjects: &[u32]) -> Stats {
         .iter()
         .map(|f| (*f, mk(r"^(.)\1$", &format!("{}s", f)), mk(r"^\w$", f), mk(r"^\W$", f), mk(r"\b", f), mk(r"^[\w]$", f)))
         .collect();
+    let nb: Vec<(&str, regress::Regex)> = ["i", "iu", "iv"].iter().map(|f| (*f, mk(r"\B", f))).collect();
+    let nb = &nb;
     let sets = &sets;
     subjects
         .par_iter()
@@ -368,6 +383,48 @@ fn api_text_side(run: &Run, subjects: &[u32]) -> Stats {
                 if got != Outcome::Ok(word) {
                     st.violation(&run.known, "C10", &format!("\\b under {} differs {}", fs, block(c)), 4, case(fs, c, &format!("/\\b/{} on U+{:04X}", fs, c), J::Bool(word), J::s(&format!("{:?}", got))));
                 }
+                // every \b and \B position with the character on the left and on the right of the position,
+                // next to a word character and next to a non-word character, through both executors
+                let notb = &nb.iter().find(|(f, _)| f == fs).unwrap().1;
+                for (l, r) in [("", ""), ("-", "-"), ("a", "a"), ("-", "a"), ("a", "-")] {
+                    let t = format!("{}{}{}", l, cc, r);
+                    let chars: Vec<char> = t.chars().collect();
+                    let mut offs: Vec<usize> = Vec::new();
+                    let mut o = 0;
+                    for ch in &chars {
+                        offs.push(o);
+                        o += ch.len_utf8();
+                    }
+                    offs.push(o);
+                    let isw = |ch: char| -> bool { if ch == cc { word } else { ch == 'a' } };
+                    let mut exp_b: Vec<usize> = Vec::new();
+                    let mut exp_nb: Vec<usize> = Vec::new();
+                    for i in 0..=chars.len() {
+                        let lw = i > 0 && isw(chars[i - 1]);
+                        let rw = i < chars.len() && isw(chars[i]);
+                        if lw != rw {
+                            exp_b.push(offs[i])
+                        } else {
+                            exp_nb.push(offs[i])
+                        }
+                    }
+                    for (name, re, exp) in [("\\b", b, &exp_b), ("\\B", notb, &exp_nb)] {
+                        for pike in [false, true] {
+                            st.add("evaluations", 1);
+                            st.add("validated", 1);
+                            let got = subject::guarded(u64::MAX, || -> Vec<usize> {
+                                if pike {
+                                    regress::backends::find::<regress::backends::PikeVMExecutor>(re, &t, 0).map(|m| m.start()).collect()
+                                } else {
+                                    re.find_iter(&t).map(|m| m.start()).collect()
+                                }
+                            });
+                            if got != Outcome::Ok(exp.clone()) {
+                                st.violation(&run.known, "C10", &format!("{} positions under {} differ {}{}", name, fs, block(c), if pike { " (PikeVM)" } else { "" }), 4, case(fs, c, &format!("/{}/{} on {:?} (U+{:04X} between {:?} and {:?})", name, fs, t, c, l, r), J::s(&format!("{:?}", exp)), J::s(&format!("{:?}", got))));
+                            }
+                        }
+                    }
+                }
             }
             st
         })
@@ -404,7 +461,7 @@ pub fn c10(run: &mut Run) -> Stats {
         run.exhaustive = true; // the hook-level sweep is complete; the API part is over K (stated in rule)
     }
     run.rule = format!(
-        "hook level (complete): for every code point 0..=0x10FFFF and both modes, the partition induced by Canonicalize, the compile-time literal expansion and the class closure (singletons, windows, 256-blocks, large spans) equal the oracle; API level: /c/, /[c]/, /[^c]/ under i, iu, iv over a haystack holding every code point of K once (K = {} candidates: members of any non-trivial class in oracle or implementation, neighbours, UTF-8 length boundaries, ASCII), backreference / \\w / \\W / [\\w] / \\b for every c in K{}; non-trivial = the code point has a non-trivial class",
+        "hook level (complete): for every code point 0..=0x10FFFF and both modes, the partition induced by Canonicalize, the compile-time literal expansion and the class closure (singletons, windows, 256-blocks, large spans) equal the oracle; API level: /c/, /[c]/, /[^c]/ under i, iu, iv over a haystack holding every code point of K once (K = {} candidates: members of any non-trivial class in oracle or implementation, neighbours, UTF-8 length boundaries, ASCII), backreference / \\w / \\W / [\\w] / \\b and every \\b / \\B position of c alone and between word / non-word neighbours (both executors) for every c in K{}; the K x K scans run with and without the program's start predicate; non-trivial = the code point has a non-trivial class",
         k.len(),
         if thorough { "; thorough: /c/ for every scalar over the all-scalars haystack, classes of K over all scalars, classes of all scalars over K, text side for all scalars" } else { "" }
     );
